@@ -45,6 +45,11 @@ def gen(seed, n, tag='loop'):
         downcap = fragsize if fragsize else 150
         a += ['--cli-size', str(rng.randrange(40, max(41, min(700, 8 * upcap)))),
               '--srv-size', str(rng.randrange(40, max(41, min(900, 8 * downcap))))]
+        if raw and rng.random() < 0.6:
+            # packets for the client arrive at the server's tun device while the handshake is still going on (one goes in flight,
+            # the rest into the session's ring) and the client then switches to raw mode
+            a += ['--srv-early-us', str(rng.choice([300, 1000, 2500]))]
+            stats['early_server_packets'] = stats.get('early_server_packets', 0) + 1
         if rng.random() < 0.2:
             # every fifth packet a large compressible one (a jumbo ping): sizes around the 4 KiB scratch buffers and up to 20000
             a += [rng.choice(['--cli-big', '--srv-big']), str(rng.choice([4092, 4093, 4100, 8020, 20000]))]
